@@ -1,6 +1,8 @@
 """C01 - only validated response frames are ever delivered as results (DESIGN 6/C01)."""
 from __future__ import annotations
 
+import asyncio
+
 from sim.net import World, DEFAULT_LATENCY, mutate
 from sim.device import SimInverter
 from sim import codec
@@ -193,14 +195,23 @@ def make_case(tier, seed, index):
         k, f = random_corruption(rnd, fr, cmd, tau)
         classes.append(k)
         faults.append(f)
-    return {"kind": "random", "framing": fr, "cmd": cmd, "mclass": "+".join(classes), "retries": r, "timeout": tau,
+    case = {"kind": "random", "framing": fr, "cmd": cmd, "mclass": "+".join(classes), "retries": r, "timeout": tau,
             "keep_alive": rnd.random() < 0.5, "comm_addr": rnd.choice([0xF7, 0x7F, 0, 1, 255, rnd.randrange(256)]),
             "faults": faults}
+    if fr in ("rtu", "tcp") and cmd["op"] == "read" and rnd.random() < 0.2:
+        # ANOTHER caller's request of a different shape is queued on the same object while this one is in flight, and
+        # the answer that arrives is well-formed for that other request (not for this one)
+        n2 = cmd["count"] % 125 + 1
+        reg2 = (cmd["reg"] + 301) & 0xFFFF
+        case["queued"] = {"op": "read", "reg": reg2, "count": n2}
+        case["faults"] = [{"k": "foreign", "req": {"count": n2, "reg": reg2}, "d": tau / 2}] + faults
+        case["mclass"] = "queued-other+" + case["mclass"]
+    return case
 
 
 def simplify(case):
     out = []
-    if case["retries"] > 0:
+    if case.get("queued") is None and case["retries"] > 0:
         out.append(dict(case, retries=0))
     if case["keep_alive"]:
         out.append(dict(case, keep_alive=False))
@@ -228,8 +239,15 @@ def run_case(case):
     proto = C.make_protocol(tr, tau, r, case["keep_alive"], case["comm_addr"])
     state = {}
 
+    async def other():
+        await asyncio.sleep(EPS)
+        state["other"] = await C.do_execute(world, proto, case["queued"], "other")
+
     async def main():
+        t = asyncio.ensure_future(other()) if case.get("queued") else None
         state["rec"] = await C.do_execute(world, proto, {k: v for k, v in cmd.items() if k not in ("blocklen", "fill")}, "req")
+        if t is not None:
+            await t
 
     status, _ = C.run_world(world, main())
     net = world.net
